@@ -63,7 +63,7 @@ def run (cmd : String) (rest : String) : Option String :=
           s!"nocopy={",".intercalate spec.copyNoCopy};sound={b (soundB spec)};" ++
           s!"flags={b spec.copyClearsIfStale}{b spec.isStaleRecomputes}{b spec.isStaleSticky}{b spec.clearGuardsLock}" ++
           s!"{b spec.clearRestamps}{b spec.clearDeletes}{b spec.wrapperChecks}{b spec.exclPrefix}{b spec.lockFinally}" ++
-          s!"{b spec.lockChecksStale}{b spec.hashSelectsCols};hashbits={spec.hashBits};hashcast={b (spec.hashCast != "")};" ++
+          s!"{b spec.lockChecksStale}{b spec.hashSelectsCols}{b spec.hashNative}{b spec.iopValidates};hashbits={spec.hashBits};hashcast={b (spec.hashCast != "")};" ++
           s!"excl={"/".intercalate ((spec.clearSites.map (fun c => ",".intercalate c.excl)).eraseDups)};" ++
           s!"shared={",".intercalate spec.sharedOnCopy};" ++
           s!"editors={",".intercalate (spec.editors.map fun e => s!"{e.fn}:{e.attr}:{b e.detaches}")};" ++
